@@ -33,7 +33,7 @@ FLOOR_CASC = {'composite-exit:back': 1, 'composite-exit:back11': 1, 'composite-e
               'preprocess-entry:backmp11': 1, 'leaf-behaviour-call:back': 1, 'leaf-behaviour-call:back11': 1, 'leaf-behaviour-call:backmp11': 1}
 prop('C02', rules=['rows', 'cascade', 'kind'], take=['C02.order', 'C02.internal', 'C02.cascade', 'C02.kind'], floors={**FLOOR_EXT, **FLOOR_INT, **FLOOR_CASC},
      explanation=ROWS_EXPL + ' C02.order: on every taken path guard? < switch < exit < switch < action? < switch < entry < switch, each exactly once; C02.internal: internal executors run guard and action only. C02.cascade: composite exit = substates in ascending region order (recursion to region+1 after the region\'s own exit; backmp11 visit of the active ids), own on_exit, history; composite entry mirrors it. C02.kind: the plain on_entry / on_exit of a state is never invoked on a receiver whose static type is a back-end machine.')
-prop('C19', rules=['rows'], take=['C19.slots'], floors=FLOOR_EXT,
+prop('C19', rules=['rows'], take=['C19.slots', 'C19.policies'], floors=FLOOR_EXT,
      explanation=ROWS_EXPL + ' C19.slots: the four writes of the active-state id use after_guard, after_exit, after_action, after_entry in this order, interleaved with the behaviours.')
 prop('C09', rules=['rows', 'cascade', 'history', 'bounds'], take=['C09.exit-active', 'C09.entry', 'C08.event', 'C03.bounds'], floors={'exit-source-exec:back': 1, 'exit-source-exec:back11': 1, 'exit-source-exec:backmp11': 1},
      explanation=ROWS_EXPL + ' C09.exit-active: an executor whose source is an exit pseudostate has a path returning HANDLED_FALSE before the guard, decided by a test that depends on the owner submachine\'s active-state array.')
@@ -50,13 +50,13 @@ prop('C04', rules=['queues', 'flag', 'poolchain', 'drain'], take=['C04.queue-ops
              'stored-callable:back:MSGQ': 1, 'stored-callable:back11:MSGQ': 1},
      explanation='Processing-flag typestate (must-analysis T/F over the CFG of process_event_internal, process_completion_transition, start, do_entry, on_entry, on_explicit_entry with summaries of the flag helpers and scope guards): behaviours and the dispatch run with the flag set, pending-event processing runs with it cleared, every exit leaves it cleared, entry sequences hold it through a scope guard. Queue discipline: who-may-call table for every mutating operation on the message queue, deferred queue and event pool; dequeue protocol front < pop_front < invoke of a by-value copy; erase only of an occurrence marked processed; stored callable bound to the submitting machine with the event by value.')
 
-prop('C06', rules=['regions', 'rows', 'C01.mask', 'wiring'], take=['C06.regions', 'C06.or', 'C06.nt', 'C06.row-result', 'C01.mask', 'C07.wiring'],
+prop('C06', rules=['regions', 'rows', 'C01.mask', 'wiring', 'plans_mp11_table'], take=['C06.regions', 'C06.or', 'C06.nt', 'C06.row-result', 'C01.mask', 'C07.wiring'],
      floors={'region-single:back': 1, 'region-single:back11': 1, 'region-step:back': 1, 'region-step:back11': 1, 'region-end:back': 1, 'region-end:back11': 1,
              'region-entry:back': 1, 'region-entry:back11': 1, 'do_process_event:back': 1, 'do_process_event:back11': 1, 'do_process_event:backmp11': 1,
              'nt-site:back': 1, 'nt-site:back11': 1, 'nt-site:backmp11': 1, 'nt-completion:back': 1, 'nt-completion:back11': 1, **FLOOR_EXT},
      explanation='Region dispatch: every instantiation of the region recursion In<N>::process invokes the cell entries[m_states[N]+1] with (fsm, N, m_states[N], evt) and continues with N+1, starting at 0 and ending at nr_regions with the machine-internal table (backmp11: the for loop 0..nr_regions-1); every write of the accumulated result ORs the old value; do_process_event starts at HANDLED_FALSE and returns the accumulator; no_transition has one call site, on this, with the reported region\'s active id, reachable only through "accumulator is zero" and the containment / direct-call test and unreachable for completion events; row executors return the handled bit / guard-reject / HANDLED_FALSE per path (C06.row-result).')
 
-prop('C07', rules=['rows', 'cascade', 'kind', 'wiring', 'C01.mask', 'plans', 'plans_mp11'], take=['C07.forward-exec', 'C02.cascade', 'C02.kind', 'C07.wiring', 'C01.mask', 'C01.plan', 'C18.frow-event'],
+prop('C07', rules=['rows', 'cascade', 'kind', 'wiring', 'C01.mask', 'plans', 'plans_mp11', 'plans_fct', 'anyevents'], take=['C07.forward-exec', 'C02.cascade', 'C02.kind', 'C07.wiring', 'C01.mask', 'C01.plan', 'C18.frow-event', 'C07.any-events'],
      floors={'forward-exec:back:frow': 1, 'forward-exec:back11:frow': 1, 'forward-exec:backmp11:forward_transition': 1, 'wiring:back': 1, 'wiring:back11': 1, **FLOOR_CASC},
      explanation='Hierarchy: forwarding executors dispatch to their own submachine object exactly once and run no behaviour (C07.forward-exec); a consumed inner event stops outer candidates (C01.mask: bit tests only); cascaded exit / entry order and composite dispatch (C02.cascade, C02.kind); substates are wired to their container last in every constructor so that containment marks and exit-point forwarders are not overwritten (C07.wiring).')
 prop('C03', rules=['cascade', 'bounds', 'visitset'], take=['C03.start-stop', 'C03.region-index', 'C03.bounds', 'C03.visit-set'],
@@ -79,7 +79,7 @@ prop('C11', rules=['gate'], take=['C11.gate', 'C11.type'],
              'gate-blocking:backmp11:process_completion_transition': 1, 'gate-helper:back': 1, 'gate-helper:back11': 1},
      explanation='Blocking gate: in process_event_internal (3 back-ends) and process_completion_transition every path reaches the terminate / interrupt test before any flag access, queue operation, deferral or dispatch, and the "blocked" outcome returns without any of them; the back/back11 helper returns true exactly for terminate or (interrupted and not end-interrupt) and looks the end-interrupt flag up for the decayed event type; machines with blocking states (front-end internal_flag_list) use the real test.')
 
-prop('C15', rules=['copyser', 'copymp11', 'wiring'], take=['C15.fields', 'C15.pool', 'C15.ctor', 'C15.this', 'C07.wiring'],
+prop('C15', rules=['copyser', 'copymp11', 'wiring', 'copyspecial', 'history'], take=['C15.fields', 'C15.pool', 'C15.ctor', 'C15.this', 'C07.wiring', 'C08.table', 'C08.private'],
      floors={'do_copy:back': 1, 'do_copy:back11': 1, 'copy-entry:back:ctor': 1, 'copy-entry:back:assign': 1, 'copy-entry:back11:ctor': 1, 'copy-entry:back11:assign': 1,
              'non_propagating:copy_assign': 1, 'pool-class:deferred_event': 1, 'pool-class:event_occurrence': 1, 'mp11-copy-ctor:copy_ctor': 1, 'mp11-copy-ctor:move_ctor': 1,
              'this-capture:back': 1, 'this-capture:back11': 1},
@@ -88,7 +88,7 @@ prop('C16', rules=['copyser'], take=['C16.fields'],
      floors={'serialize:back': 1, 'serialize:back11': 1, 'serialize_state:back': 1, 'serialize_state:back11': 1, 'serialize:history:NoHistoryImpl': 1, 'serialize:history:ShallowHistoryImpl': 1},
      explanation='Field coverage of serialization: serialize() archives the front-end base object and every data member of the machine except the documented unserialisable ones (queues, visitors, container pointer), each history policy archives all its members, serialize_state archives exactly the composite and do_serialize states. One serialize() serves both directions (Boost.Serialization operator&). Round-trip behaviour is not decided.')
 
-prop('C17', rules=['flags', 'visitset', 'rows'], take=['C17.table', 'C17.pure', 'C17.visitor', 'C03.visit-set', 'C19.slots'],
+prop('C17', rules=['flags', 'visitset', 'rows'], take=['C17.table', 'C17.pure', 'C17.visitor', 'C03.visit-set', 'C19.slots', 'C19.policies'],
      floors={'init-flags:back': 1, 'init-flags:back11': 1, 'flag-fold:back': 1, 'flag-fold:back11': 1, 'flag-query:backmp11': 1, 'flag-visitor:flag_or': 1, 'flag-visitor-call:flag_or': 1,
              'visit-set-with-submachines:1-pred': 1},
      explanation='Flag tables: for every (state, flag) instantiation of the back/back11 table initialiser the installed handler equals the oracle recomputed from the state\'s declared flag_list / internal_flag_list (true / forward into a composite unless the flag is non-forwarding / false); is_flag_active is const, consults region 0 and folds regions 1..N-1 over the active ids only and writes no member; backmp11: the query is const and traverses the active configuration recursively, the OR / AND visitors start at false / true and set true / false, and the compile-time pruning sets are closed under nesting (C03.visit-set).')
@@ -109,7 +109,7 @@ prop('C20', rules=['poly', 'queues', 'copymp11'], take=['C20.poly', 'C20.erasure
              'pool-layout:deferred_event': 1, 'erasure:exit-forwarder': 1, 'erase-site:do_process_event_pool': 1, 'tl-poly-asserts': 15},
      explanation='Stored events: basic_polymorphic_base assignments test self-assignment, destroy the held object, take the control block and copy / move, in this order; constructors take the control block then copy / move; the destructor destroys once; the value constructors store into buffer or heap in agreement with the control block they select; control_block::move nulls a stolen heap pointer, destroy is null-tolerant; event_occurrence is the first base of pooled classes; the exit-point forwarder reads the type it is handed; pool erase only after marked_for_deletion; queue elements store the event by value; inline / heap selection over a size x alignment x nothrow-move matrix and the control-block capacity are asserted at compile time (C20.cb). Absence of use-after-free over operation histories is not decided.')
 
-SIB_TAKE = ['C13.siblings', 'C01.plan', 'C18.frow-event', 'C01.mask', 'C02.order', 'C02.internal', 'C19.slots', 'C06.row-result', 'C06.or', 'C06.nt', 'C06.regions', 'C09.exit-active', 'C04.flag', 'C04.flag-test', 'C04.flag-drain', 'C04.flag-exit', 'C04.queue-ops', 'C11.gate', 'C12.catch', 'C02.cascade', 'C10.first', 'C05.cell', 'C03.visit-set']
-prop('C13', rules=['siblings', 'siblings_cmp', 'plans', 'plans_mp11', 'plans_fct', 'plans_mp11_table', 'C01.mask', 'rows', 'regions', 'flag', 'queues', 'gate', 'catch', 'cascade', 'drain', 'defer_plan', 'visitset'], take=SIB_TAKE,
+SIB_TAKE = ['C13.siblings', 'C07.any-events', 'C19.policies', 'C01.plan', 'C18.frow-event', 'C01.mask', 'C02.order', 'C02.internal', 'C19.slots', 'C06.row-result', 'C06.or', 'C06.nt', 'C06.regions', 'C09.exit-active', 'C04.flag', 'C04.flag-test', 'C04.flag-drain', 'C04.flag-exit', 'C04.queue-ops', 'C11.gate', 'C12.catch', 'C02.cascade', 'C10.first', 'C05.cell', 'C03.visit-set']
+prop('C13', rules=['siblings', 'siblings_cmp', 'plans', 'plans_mp11', 'plans_fct', 'plans_mp11_table', 'anyevents', 'C01.mask', 'rows', 'regions', 'flag', 'queues', 'gate', 'catch', 'cascade', 'drain', 'defer_plan', 'visitset'], take=SIB_TAKE,
      floors={'sibling-patterns': 60, 'plan-table:back': 1, 'plan-table:back11': 1, 'plan-table:backmp11': 1, 'plan-table:back-fct': 1, 'mp11-table': 1, 'fct-chain-add': 1, **FLOOR_EXT},
      explanation='Equivalence of configurations, decided structurally: (1) sibling agreement - every function of back and back11 (state_machine.hpp, dispatch_table.hpp) instantiated for the same front-end machine and the same arguments in both back-ends has the same set of abstract path signatures (resolved library callees, enumerator / flag arguments, member writes, returns); (2) the dispatch plans of back, back11 and backmp11 (flat_fold and function_pointer_array share them) each equal the one oracle computed from the front-end declarations, hence each other; (3) every shape rule that has instances in several back-ends (execution order, policy slots, result codes, run-to-completion flag, queue discipline, blocking gate, exception handling, cascades) is evaluated on all of them. Trace equality over event sequences is not decided.')
